@@ -62,7 +62,7 @@ def placeBlocks (K2 : Bytes) (mark : UInt8) :
     match avail.getLast? with
     | none => .error .indexError
     | some pos => do
-      let ptr ← match intToBytes pos cfg.idxSize with | .ok p => pure p | .error e => throw e
+      let ptr ← intToBytes pos cfg.idxSize
       let (d, t1) ← skeEncrypt cfg.ske lv K2 (mark :: blk) t
       if pos ≥ A.length then throw .indexError
       let (ptrs, avail', A', t2) ← placeBlocks K2 mark rest avail.dropLast (A.set pos (some d)) t1
@@ -76,30 +76,34 @@ def dictEntry (K1 K2 : Bytes) (mark : UInt8) (content : Bytes) (t : Tape) : Exce
   let (d, t1) ← skeEncrypt cfg.ske lv K2 (mark :: padded) t
   pure ((l, d), t1)
 
+/-- the body of the keyword loop of `_Enc`: small / medium / large -/
+def storeKeyword (K1 K2 : Bytes) (ids : List Bytes) (avail : List Nat) (A : List (Option Bytes)) (t : Tape) :
+    Except Err ((Bytes × Bytes) × List Nat × List (Option Bytes) × Tape) :=
+  let n : Int := ids.length
+  let arrayBlock := cfg.B * cfg.idSize
+  if n ≤ cfg.b then do
+    let (e, t1) ← dictEntry cfg lv K1 K2 0 ids.flatten t
+    pure (e, avail, A, t1)
+  else if n ≤ cfg.B * cfg.bp then do
+    let blocks ← partitionBlocks ids cfg.B cfg.idSize arrayBlock
+    let (ptrs, avail1, A1, t1) ← placeBlocks cfg lv K2 0 blocks avail A t
+    let (e, t2) ← dictEntry cfg lv K1 K2 1 ptrs.flatten t1
+    pure (e, avail1, A1, t2)
+  else if n < (cfg.B * cfg.Bp) * cfg.bp then do
+    let blocks ← partitionBlocks ids cfg.B cfg.idSize arrayBlock
+    let (ptrs, avail1, A1, t1) ← placeBlocks cfg lv K2 0 blocks avail A t
+    let pblocks ← partitionBlocks ptrs cfg.Bp cfg.idxSize arrayBlock
+    let (ptrs2, avail2, A2, t2) ← placeBlocks cfg lv K2 1 pblocks avail1 A1 t1
+    let (e, t3) ← dictEntry cfg lv K1 K2 1 ptrs2.flatten t2
+    pure (e, avail2, A2, t3)
+  else throw .valueError
+
 def encDb (K : Bytes) : DB → List Nat → List (Option Bytes) → Tape →
     Except Err (List (Bytes × Bytes) × List (Option Bytes) × Tape)
   | [], _, A, t => .ok ([], A, t)
   | (w, ids) :: rest, avail, A, t => do
     let (K1, K2) ← token cfg lv K w
-    let n : Int := ids.length
-    let arrayBlock := cfg.B * cfg.idSize
-    let (entry, avail1, A1, t1) ←
-      if n ≤ cfg.b then do
-        let (e, t1) ← dictEntry cfg lv K1 K2 0 ids.flatten t
-        pure (e, avail, A, t1)
-      else if n ≤ cfg.B * cfg.bp then do
-        let blocks ← partitionBlocks ids cfg.B cfg.idSize arrayBlock
-        let (ptrs, avail1, A1, t1) ← placeBlocks cfg lv K2 0 blocks avail A t
-        let (e, t2) ← dictEntry cfg lv K1 K2 1 ptrs.flatten t1
-        pure (e, avail1, A1, t2)
-      else if n < (cfg.B * cfg.Bp) * cfg.bp then do
-        let blocks ← partitionBlocks ids cfg.B cfg.idSize arrayBlock
-        let (ptrs, avail1, A1, t1) ← placeBlocks cfg lv K2 0 blocks avail A t
-        let pblocks ← partitionBlocks ptrs cfg.Bp cfg.idxSize arrayBlock
-        let (ptrs2, avail2, A2, t2) ← placeBlocks cfg lv K2 1 pblocks avail1 A1 t1
-        let (e, t3) ← dictEntry cfg lv K1 K2 1 ptrs2.flatten t2
-        pure (e, avail2, A2, t3)
-      else throw .valueError
+    let (entry, avail1, A1, t1) ← storeKeyword cfg lv K1 K2 ids avail A t
     let (qs, A2, t2) ← encDb K rest avail1 A1 t1
     pure (entry :: qs, A2, t2)
 
@@ -127,14 +131,18 @@ def parseAll (count : Int) : List Bytes → Except Err (List Bytes)
     let more ← parseAll count rest
     pure (xs ++ more)
 
+/-- `D[addr]` at the top level, `A[int(addr)]` below it -/
+def readCells (edb : PiPtrEDB) (level : Nat) (prev : List Bytes) : Except Err (List (Option Bytes)) :=
+  if level = 0 then
+    mapE (fun a => match edb.D.get a with | some c => Except.ok (some c) | none => Except.error Err.keyError) prev
+  else
+    mapE (fun a => match edb.A[intFromBytes a]? with | some c => Except.ok c | none => Except.error Err.indexError) prev
+
 /-- the level loop of `_Search`; `prev` = the addresses to read at this level -/
 def levelLoop (edb : PiPtrEDB) (K2 : Bytes) : Nat → Nat → List Bytes → Except Err (List Bytes)
   | 0, _, _ => .error .diverges
   | fuel + 1, level, prev => do
-    let ciphers ← if level = 0 then
-        prev.mapM fun a => match edb.D.get a with | some c => pure (some c) | none => throw .keyError
-      else
-        prev.mapM fun a => match edb.A[intFromBytes a]? with | some c => pure c | none => throw .indexError
+    let ciphers ← readCells edb level prev
     let pts ← decAllOpt cfg lv K2 ciphers
     let mark ← match pts.head? with
       | some p => pure (p.take 1)
@@ -148,6 +156,24 @@ def levelLoop (edb : PiPtrEDB) (K2 : Bytes) : Nat → Nat → List Bytes → Exc
 def search (edb : PiPtrEDB) (tk : Bytes × Bytes) : Except Err (List Bytes) := do
   let l0 ← cfg.prfF.call lv.hmac tk.1 [0]
   if (edb.D.get l0).isNone then pure [] else levelLoop cfg lv edb tk.2 4 0 [l0]
+
+/-! the hypotheses of the Pi2Lev theorems as a computation on this run -/
+
+def hypsB (K : Bytes) (db : DB) (t : Tape) (absent : List Bytes) : Bool :=
+  decide (0 < cfg.idxSize) &&
+  match takeNats t with
+  | .error _ => false
+  | .ok (avail, t0) =>
+    Chain.nodupB (avail.map natToBytesMin) && avail.all (· > 0) &&
+    match encDb cfg lv K db avail (List.replicate (arrayLen cfg db) none) t0 with
+    | .error _ => false
+    | .ok (L, _, _) =>
+      let labels := L.map (·.1)
+      Chain.nodupB labels &&
+      absent.all (fun w => match token cfg lv K w with
+        | .ok (K1, _) => (match cfg.prfF.call lv.hmac K1 [0] with
+           | .ok l => !labels.contains l | .error _ => false)
+        | .error _ => false)
 
 end Pi2Lev
 end SSEPy.Sch
